@@ -217,6 +217,18 @@ theorem root_path_normalised (s : List Char) :
     have := congrArg List.reverse hk
     simpa using this
 
+/-- **`from_mapping` hands every key to `setattr`** (re-decided against the current source through the extracted guards of
+    its loop): no statement in front of `try: setattr(config, key, value) / except AttributeError: pass` skips a key - in
+    particular not a key whose attribute cannot be *read* on a fresh `Config` (`cert_reqs`, `application_path`) -/
+theorem from_mapping_guard_spec : ConfigSites.fromMappingGuards = [] ∧ ∀ k : String, mapKeeps k = true := by
+  refine ⟨by rfl, ?_⟩
+  intro k
+  simp [mapKeeps, ConfigSites.fromMappingGuards]
+
+/-- so the loop is the plain fold over all keys -/
+theorem from_mapping_all_keys (kvs : List (String × Val)) : fromMapping kvs = fromMappingU kvs :=
+  fromMapping_eq from_mapping_guard_spec.2 kvs
+
 /-- a bind given as one string is the one-element list -/
 theorem bind_str_eq_list (key : String) (hk : key = "bind" ∨ key = "insecure_bind" ∨ key = "quic_bind") (s : List Char) :
     setattrNorm key (.str s) = setattrNorm key (.strs [s]) := by
@@ -269,7 +281,8 @@ theorem from_mapping_last (kvs : List (String × Val)) (k : String) (v : Val) (k
     (hn : setattrNorm k v = some (k', v')) :
     (fromMapping (kvs ++ [(k, v)])).lookup k' = some v' ∧
     ∀ k'', k'' ≠ k' → (fromMapping (kvs ++ [(k, v)])).lookup k'' = (fromMapping kvs).lookup k'' := by
-  simp only [fromMapping, List.foldl_append, List.foldl_cons, List.foldl_nil, hn, Store.set]
+  rw [from_mapping_all_keys, from_mapping_all_keys]
+  simp only [fromMappingU, List.foldl_append, List.foldl_cons, List.foldl_nil, hn, Store.set]
   constructor
   · simp [List.lookup]
   · intro k'' hne
@@ -297,7 +310,41 @@ theorem from_mapping_last (kvs : List (String × Val)) (k : String) (v : Val) (k
 /-- read-only properties are skipped silently -/
 theorem from_mapping_readonly (kvs : List (String × Val)) (k : String) (v : Val) (hk : k ∈ readOnly) :
     fromMapping (kvs ++ [(k, v)]) = fromMapping kvs := by
-  simp [fromMapping, setattrNorm, hk]
+  rw [from_mapping_all_keys, from_mapping_all_keys]
+  simp [fromMappingU, setattrNorm, hk]
+
+/-- **a setting that cannot be read back is loaded like any other**: `cert_reqs` (a property without a getter) supplied
+    through any loader stores `VerifyMode(value)` under `verify_mode` - exactly what supplying `verify_mode` itself stores,
+    and what the command line's `--cert-reqs` does (`config.cert_reqs = args.cert_reqs`, `cli_table_wired`) -/
+theorem cert_reqs_loaded (kvs : List (String × Val)) (r : String) :
+    fromMapping (kvs ++ [("cert_reqs", .other r)]) = fromMapping (kvs ++ [("verify_mode", .verifyMode r)]) ∧
+    (fromMapping (kvs ++ [("cert_reqs", .other r)])).lookup "verify_mode" = some (.verifyMode r) := by
+  refine ⟨?_, (from_mapping_last kvs "cert_reqs" (.other r) "verify_mode" (.verifyMode r) (by simp [setattrNorm, readOnly])).1⟩
+  rw [from_mapping_all_keys, from_mapping_all_keys]
+  simp [fromMappingU, setattrNorm, readOnly]
+
+/-- … and `application_path` (annotated on `Config` without a value) is stored under its own name -/
+theorem application_path_loaded (kvs : List (String × Val)) (v : Val) :
+    (fromMapping (kvs ++ [("application_path", v)])).lookup "application_path" = some v :=
+  (from_mapping_last kvs "application_path" v "application_path" v (by simp [setattrNorm, readOnly])).1
+
+/-- every key that is not a read-only property reaches an attribute, whether or not that attribute can be read back -/
+theorem from_mapping_stores (kvs : List (String × Val)) (k : String) (v : Val) (hk : k ∉ readOnly) :
+    ∃ k' v', setattrNorm k v = some (k', v') ∧ (fromMapping (kvs ++ [(k, v)])).lookup k' = some v' := by
+  have : ∃ k' v', setattrNorm k v = some (k', v') := by
+    unfold setattrNorm
+    simp only [hk, if_false]
+    split
+    · exact ⟨_, _, rfl⟩
+    · split
+      · exact ⟨_, _, rfl⟩
+      · split <;> exact ⟨_, _, rfl⟩
+  obtain ⟨k', v', h⟩ := this
+  exact ⟨k', v', h, (from_mapping_last kvs k v k' v' h).1⟩
+
+example : ConfigSites.unreadableKeys = ["application_path", "cert_reqs"] := by decide
+example : fromMapping [("workers", .other "2"), ("cert_reqs", .other "2"), ("log", .other "1")] =
+    [("verify_mode", .verifyMode "2"), ("workers", .other "2")] := by decide +kernel
 
 /-! ### Bind strings -/
 
@@ -362,6 +409,18 @@ private theorem contains_colon_false (h : List Char) (hh : plainHost h) : h.cont
   | true => exact absurd rfl (hh ':' (by simpa using hb)).1
 
 
+/-- **the address family is decided by the parsed host** (re-decided against the current source: `inetIsV6` is the test of
+    `socket.socket(socket.AF_INET6 if … else socket.AF_INET, type_)`): AF_INET6 exactly when the host contains a colon -
+    however the bind string was written, with brackets or without -/
+theorem bind_family_spec (bind0 bind host : List Char) : ConfigSites.inetIsV6 bind0 bind host = host.contains ':' := by rfl
+
+/-- every inet bind: the family follows from the host that is bound, nothing else -/
+theorem bind_family_of_host (s : List Char) : ∀ v6 h p, parseInet s = .inet v6 h p → v6 = h.contains ':' := by
+  intro v6 h p hp
+  simp only [parseInet, bind_family_spec] at hp
+  injection hp with h1 h2 _
+  rw [← h1, ← h2]
+
 private theorem parseInet_of_split (s h p : List Char) (n : Nat)
     (hb : ∀ c ∈ s, c ≠ '[' ∧ c ≠ ']') (hs : rsplitColon s = some (h, p)) (hn : parseNat p = some n) :
     parseInet s = .inet (h.contains ':') h n := by
@@ -369,7 +428,7 @@ private theorem parseInet_of_split (s h p : List Char) (n : Nat)
     cases s with
     | nil => rfl
     | cons a t => simpa using (hb a (by simp)).1
-  simp [parseInet, filter_plain s hb, hs, hn, hhd]
+  simp [parseInet, bind_family_spec, filter_plain s hb, hs, hn, hhd]
 
 private theorem not_unix_prefix (h rest : List Char) (hh : plainHost h) (hne : h ≠ "unix".toList) :
     "unix:".toList.isPrefixOf (h ++ ':' :: rest) = false := by
@@ -438,7 +497,7 @@ theorem bind_bare_host (h : List Char) (hh : plainHost h) : parseBind h = .inet 
   simp only [Bool.false_eq_true, if_false, parseInet]
   rw [filter_plain h (fun c hc => (hh c hc).2), rsplitColon_none h (fun c hc => (hh c hc).1)]
   have hnc : ':' ∉ h := fun hc => (hh ':' hc).1 rfl
-  simp [hnc]
+  simp [hnc, bind_family_spec]
 
 def v6chars (h : List Char) : Prop := ':' ∈ h ∧ ∀ c ∈ h, c ≠ '[' ∧ c ≠ ']'
 
@@ -477,7 +536,7 @@ theorem bind_v6_port (h p : List Char) (hh : v6chars h) (hp : digits p) :
       simpa using this
   rw [hf, rsplitColon_append h p (digits_no p hp ':' (by decide))]
   have hl' : ('[' :: (h ++ ']' :: ':' :: p)).getLast? ≠ some ']' := by simpa using hl
-  simp [hn, hh.1, hl']
+  simp [hn, hh.1, hl', bind_family_spec]
 
 /-- **bare `[IPv6]`**: the bracketed address on the default port 8000 -/
 theorem bind_bare_v6 (h : List Char) (hh : v6chars h) : parseBind ('[' :: h ++ [']']) = .inet true h 8000 := by
@@ -496,7 +555,39 @@ theorem bind_bare_v6 (h : List Char) (hh : v6chars h) : parseBind ('[' :: h ++ [
     have e : '[' :: h ++ [']'] = ('[' :: h) ++ [']'] := by simp
     rw [e, List.getLast?_append]; simp
   have hl' : ('[' :: (h ++ [']'])).getLast? = some ']' := by simpa using hl
-  simp [hl', filter_plain h hh.2, hh.1]
+  simp [hl', filter_plain h hh.2, hh.1, bind_family_spec]
+
+/-- **a bare IPv6 host written without brackets** (`::`, `fe80::a`, `2001:db8::beef`, `::ffff:192.0.2.1`): what stands behind
+    the last colon is no decimal number, so the whole string is the host, on the default port - and the family is AF_INET6
+    exactly as for the bracketed spelling (`bind_bare_v6`) -/
+theorem bind_bare_v6_unbracketed (h : List Char) (hh : v6chars h)
+    (hnu : "unix:".toList.isPrefixOf h = false) (hnf : "fd://".toList.isPrefixOf h = false)
+    (htail : ∀ a p, rsplitColon h = some (a, p) → parseNat p = none) :
+    parseBind h = .inet true h 8000 := by
+  unfold parseBind
+  rw [hnu, hnf]
+  simp only [Bool.false_eq_true, if_false, parseInet, bind_family_spec]
+  have hhd : (h.head? == some '[') = false := by
+    cases h with
+    | nil => rfl
+    | cons a t => simpa using (hh.2 a (by simp)).1
+  rw [filter_plain h hh.2]
+  cases hs : rsplitColon h with
+  | none => simp [hhd, hh.1]
+  | some ap =>
+    obtain ⟨a, p⟩ := ap
+    simp [hhd, htail a p hs, hh.1]
+
+/-- the one ambiguous spelling (like the host `unix`): an unbracketed literal whose last group is a decimal number (`::1`,
+    `2001:db8::8a2e:370:7334`) is of the shape `host:port` and is read so; the family still follows the host that is bound -/
+theorem bind_unbracketed_decimal_tail (s a p : List Char) (n : Nat) (hb : ∀ c ∈ s, c ≠ '[' ∧ c ≠ ']')
+    (hnu : "unix:".toList.isPrefixOf s = false) (hnf : "fd://".toList.isPrefixOf s = false)
+    (hs : rsplitColon s = some (a, p)) (hn : parseNat p = some n) :
+    parseBind s = .inet (a.contains ':') a n := by
+  unfold parseBind
+  rw [hnu, hnf]
+  simp only [Bool.false_eq_true, if_false]
+  exact parseInet_of_split s a p n hb hs hn
 
 theorem bind_unix (path : List Char) : parseBind ("unix:".toList ++ path) = .unix path := by
   have e : "unix:".toList = ['u', 'n', 'i', 'x', ':'] := by decide
@@ -512,6 +603,16 @@ example : parseBind "[::]:5000".toList = .inet true "::".toList 5000 := by decid
 example : parseBind "[::]".toList = .inet true "::".toList 8000 := by decide
 example : parseBind "[::1]".toList = .inet true "::1".toList 8000 := by decide
 example : parseBind "localhost".toList = .inet false "localhost".toList 8000 := by decide
+example : parseBind "::".toList = .inet true "::".toList 8000 := by decide
+example : parseBind "fe80::a".toList = .inet true "fe80::a".toList 8000 := by decide
+example : parseBind "::ffff:192.0.2.1".toList = .inet true "::ffff:192.0.2.1".toList 8000 := by decide
+example : parseBind "::1".toList = .inet true ":".toList 1 := by decide      -- `host:port` wins: write `[::1]`
+example : v6chars "fe80::a".toList ∧ (∀ a p, rsplitColon "fe80::a".toList = some (a, p) → parseNat p = none) := by
+  refine ⟨⟨by decide, by intro c hc; simp at hc; rcases hc with rfl | rfl | rfl | rfl | rfl | rfl | rfl <;> decide⟩, ?_⟩
+  intro a p h
+  have : rsplitColon "fe80::a".toList = some ("fe80:".toList, "a".toList) := by decide
+  rw [this] at h
+  injection h with h; injection h with _ h2; subst h2; decide
 
 /-! ### RFC 7231 date and the server's own response headers -/
 
